@@ -5,7 +5,6 @@ import (
 	"regexp"
 	"strings"
 	"unicode"
-	"unicode/utf8"
 
 	"github.com/reeflective/readline/inputrc"
 	"github.com/reeflective/readline/internal/color"
@@ -130,7 +129,7 @@ func (l *Line) CutRune(pos int) {
 // This should NOT confused with the length of the line in terms of
 // how many terminal columns its printed representation will take.
 func (l *Line) Len() int {
-	return utf8.RuneCountInString(string(*l))
+	return len(*l)
 }
 
 // SelectWord returns the begin and end index positions of a word
